@@ -121,7 +121,8 @@ func runSecdb(r *hx.Run, g *gen, cfg hx.Config) {
 				l.str(f.Ver).n(len(f.IDs))
 				for _, id := range f.IDs {
 					l.str(id)
-					wants = append(wants, want{ID: id, Pkg: pk.Name, Fixed: f.Ver, Dist: dist, Sev: claircore.Unknown})
+					wants = append(wants, want{ID: id, Pkg: pk.Name, Fixed: f.Ver, Dist: dist, Sev: claircore.Unknown,
+						Extra: fmt.Sprintf("links=%q desc=%q sevstr=%q issued=", "https://security.alpinelinux.org/vuln/"+id, "", "")})
 				}
 			}
 		}
@@ -140,7 +141,7 @@ func runSecdb(r *hx.Run, g *gen, cfg hx.Config) {
 			r.Fail("", fmt.Sprintf("alpine Parse of a well-formed secdb: %s%v feed=%s", obs, err, clip(feed)))
 			continue
 		}
-		if d := checkExact(wants, vs, nil); d != "" {
+		if d := checkExact(wants, vs, advExtra); d != "" {
 			r.Fail("", fmt.Sprintf("alpine secdb: %s; feed=%s", d, clip(feed)))
 		}
 		for _, v := range vs {
@@ -158,6 +159,11 @@ func runSecdb(r *hx.Run, g *gen, cfg hx.Config) {
 			}
 		}
 	}
+}
+
+// advExtra: the advisory-level fields of the flat formats.
+func advExtra(v *claircore.Vulnerability) string {
+	return fmt.Sprintf("links=%q desc=%q sevstr=%q issued=%s", v.Links, v.Description, v.Severity, issuedTok(v.Issued))
 }
 
 func bucket(n int) string {
@@ -293,7 +299,8 @@ func runDebian(r *hx.Run, g *gen, cfg hx.Config) {
 					}
 					r.Count("debian:status:" + d.Status)
 					wants = append(wants, want{ID: v.ID, Pkg: s.Name, Fixed: d.Fixed, Dist: debDistKey(d.Release, debKnown[known].ver),
-						Sev: debian.NormalizeSeverityForC14(d.Urgency)})
+						Sev:   debian.NormalizeSeverityForC14(d.Urgency),
+						Extra: fmt.Sprintf("links=%q desc=%q sevstr=%q issued=", "https://security-tracker.debian.org/tracker/"+v.ID, v.Desc, d.Urgency)})
 				}
 			}
 		}
@@ -309,7 +316,7 @@ func runDebian(r *hx.Run, g *gen, cfg hx.Config) {
 			r.Fail("", fmt.Sprintf("debian Parse of a well-formed tracker document: %s%v feed=%s", obs, err, clip(feed)))
 			continue
 		}
-		if d := checkExact(wants, vs, nil); d != "" {
+		if d := checkExact(wants, vs, advExtra); d != "" {
 			r.Fail("", fmt.Sprintf("debian tracker: %s; feed=%s", d, clip(feed)))
 		}
 		for _, v := range vs {
@@ -438,7 +445,7 @@ func runAws(r *hx.Run, g *gen, cfg hx.Config) {
 					if p.Epoch != "" && p.Epoch != "0" {
 						fixed = p.Epoch + ":" + fixed
 					}
-					wants = append(wants, want{ID: up.ID, Pkg: p.Name, Fixed: fixed, Dist: rel.dist, Extra: "arch=" + p.Arch + " issued=" + issuedTok(up.Issued), Sev: aws.NormalizeSeverity(up.Severity)})
+					wants = append(wants, want{ID: up.ID, Pkg: p.Name, Fixed: fixed, Dist: rel.dist, Extra: fmt.Sprintf("arch=%s issued=%s links=%q desc=%q sevstr=%q", p.Arch, issuedTok(up.Issued), strings.Join(up.Refs, " "), up.Desc, up.Severity), Sev: aws.NormalizeSeverity(up.Severity)})
 				}
 			}
 		}
@@ -458,7 +465,7 @@ func runAws(r *hx.Run, g *gen, cfg hx.Config) {
 			if v.Package == nil {
 				return "arch=?"
 			}
-			return "arch=" + v.Package.Arch + " issued=" + issuedTok(v.Issued)
+			return fmt.Sprintf("arch=%s issued=%s links=%q desc=%q sevstr=%q", v.Package.Arch, issuedTok(v.Issued), v.Links, v.Description, v.Severity)
 		}); d != "" {
 			r.Fail("", fmt.Sprintf("aws updateinfo: %s; feed=%s", d, clip(feed)))
 		}
